@@ -158,6 +158,10 @@ def run(ctx):
     from .c01_panics import check_assignment_targets
     n21 = check_assignment_targets(ctx, ctx.program("MAX"))
     ctx.floor("C01.P21 parser sites that fill an assignment target", n21, 4)
+    from .c01_panics import check_argument_limit
+    n22, nw22, nl22 = check_argument_limit(ctx, ctx.program("MAX"))
+    ctx.floor("C01.P22 narrowing asserts of the generator over call arguments", nw22, 1)
+    ctx.floor("C01.P22 argument limits of the parser", nl22, 1)
     # P19: the length an engine iterator claims is backed by memory or clamped
     from .c01_sizehint import check_size_hints
     n19 = check_size_hints(ctx, ctx.program("MAX"))
